@@ -58,23 +58,28 @@ VTwin(ev) ==
       IF n = 0 THEN Ok(Rejected(ev[16]) \/ (IsVal(ev[16]) /\ ev[16][2] = <<>>), "chromosome-codons-unchanged")
       ELSE Ok(IsVal(ev[16]) /\ CodonLocsAre(ev[16][2], Codons(cds), st), "chromosome-codons-unchanged"),
       \* chunk-relative codons = the whole-chromosome codons lying fully inside the chunk
+      \* named deviation (keyed known finding cds:single-exon-chunk-offset): with the offset not reduced modulo 3 the scan
+      \* starts one codon late -- the code answers with the expected codons WITHOUT THE FIRST one; only that answer is
+      \* filed under the finding
       IF want = <<>> THEN
-         (IF Rejected(ev[17]) \/ (IsVal(ev[17]) /\ ev[17][2] = <<>>) THEN "ok"
-          ELSE IF unreduced THEN "chunk-codons:single-exon-offset" ELSE "chunk-codons:none-expected")
+         (IF Rejected(ev[17]) \/ (IsVal(ev[17]) /\ ev[17][2] = <<>>) THEN "ok" ELSE "chunk-codons:none-expected")
       ELSE IF IsVal(ev[17]) /\ CodonLocsAre(ev[17][2], want, st) THEN "ok"
-      ELSE IF unreduced /\ (IsVal(ev[17]) \/ Rejected(ev[17])) THEN "chunk-codons:single-exon-offset"
+      ELSE IF unreduced /\ ((Len(want) = 1 /\ (Rejected(ev[17]) \/ (IsVal(ev[17]) /\ ev[17][2] = <<>>)))
+                            \/ (IsVal(ev[17]) /\ CodonLocsAre(ev[17][2], Tail(want), st)))
+           THEN "chunk-codons:single-exon-offset"
       ELSE "chunk-codons",
       IF want = <<>> THEN
          (IF Rejected(ev[18]) \/ (IsVal(ev[18]) /\ ev[18][2] = 0) THEN "ok"
-          ELSE IF unreduced THEN "chunk-codons:single-exon-offset"
           ELSE IF insb = <<>> THEN "num-chunk-codons:cds-outside-chunk" ELSE "num-chunk-codons")
       ELSE IF IsVal(ev[18]) /\ ev[18][2] = Len(want) THEN "ok"
-      ELSE IF unreduced THEN "chunk-codons:single-exon-offset" ELSE "num-chunk-codons",
+      ELSE IF unreduced /\ ((IsVal(ev[18]) /\ ev[18][2] = Len(want) - 1) \/ (Len(want) = 1 /\ Rejected(ev[18])))
+           THEN "chunk-codons:single-exon-offset" ELSE "num-chunk-codons",
       IF want = <<>> THEN
-         (IF Rejected(ev[19]) \/ (IsVal(ev[19]) /\ ev[19][2] = <<>>) THEN "ok"
-          ELSE IF unreduced THEN "chunk-codons:single-exon-offset" ELSE "chunk-cds-sequence:none-expected")
+         (IF Rejected(ev[19]) \/ (IsVal(ev[19]) /\ ev[19][2] = <<>>) THEN "ok" ELSE "chunk-cds-sequence:none-expected")
       ELSE IF IsVal(ev[19]) /\ ev[19][2] = codingChars THEN "ok"
-      ELSE IF unreduced THEN "chunk-codons:single-exon-offset" ELSE "chunk-cds-sequence"
+      ELSE IF unreduced /\ ((IsVal(ev[19]) /\ ev[19][2] = CharsOf(FlatCodons(Tail(want)), st = "-", R))
+                            \/ (Len(want) = 1 /\ Rejected(ev[19])))
+           THEN "chunk-codons:single-exon-offset" ELSE "chunk-cds-sequence"
     >>)
   >>)
 (* ["agg", kind, route, ctor, ws, we, exons (of the longest child), R,
